@@ -281,12 +281,17 @@ package hybridbuffer
 // chunk included. lastcount: ghost - the last chunk count taken.
 //@ ghost var lastcount int
 //@ func (op *chunkOperator) CountExistingChunks() int
+//@   property C03 C19 C04 C06 C17
 //@   flag counted
 //@   requires validop(op)
 //@   modifies lastcount, mval[ref(op.metrics.ioErrorsTotal)], op.maybeDir.*
 //@   ghostset lastcount := result
 //@   ensures result >= 0 && lastcount == result
+// (C04 C03: what else lies in the directory - the temporary file of an interrupted spill, foreign files - never hides the chunks)
+//@   ensures[a-directory-holding-a-chunk-file-has-a-positive-count] op.maybeDir != nil && mval[ref(op.metrics.ioErrorsTotal)] == old(mval[ref(op.metrics.ioErrorsTotal)]) ==>
+//@        forall k int :: direntry(ref(op.maybeDir), k) && idmatch(ref(op.matchChunkID), k) ==> result > 0
 //@   loop 1: invariant -1 <= rangeindex && 0 <= numChunks && numChunks <= rangeindex + 1
+//@   loop 1: invariant forall j int :: 0 <= j && j <= rangeindex && j < len(fnames) && idmatch(ref(op.matchChunkID), key(fnames[j])) ==> numChunks > 0
 // set-up / tear-down of the per-entry operator: a new operator is valid, its gauges start at zero (also when the metric
 // creator is reused), quota and matcher are the ones given
 //@ func newChunkOperator(parentLogger logger.Logger, path string, matchChunkID func(string) bool, metricCreator promreg.MetricCreator, maxTotalBytes int64) chunkOperator
@@ -306,7 +311,7 @@ package hybridbuffer
 //@   loop 1: step[only-queues-holding-chunks-are-listed] len(validBufferIDList) != prev(len(validBufferIDList)) ==> len(validBufferIDList) == prev(len(validBufferIDList)) + 1 && ncalls("hybridbuffer.chunkOperator.CountExistingChunks") > prev(ncalls("hybridbuffer.chunkOperator.CountExistingChunks")) && lastcount > 0
 
 //@ func makeBufferQueueDir(parentLogger logger.Logger, rootPath string, bufferID string) string
-//@   property C06
+//@   property C06 C03
 //@   requires parentLogger != nil
 //@   modifies everything
 //@   ensures[hash-of-the-raw-id] bufferID != "" ==> util.lasthashed === bufferID
